@@ -64,6 +64,24 @@ theorem findPos_new (nodeSize B E : Nat) (dbl : Bool) (m : Nat) (hm : m < E ∨ 
     · have h2 : B < m := by omega
       simp [h1, h2]
 
+/-- the interval assertion cannot fail on a fresh (empty) list -/
+theorem intervalAssertFails_new (nodeSize B E : Nat) (m : Nat) (hm : m < E ∨ B < m) :
+    (OrdList.new nodeSize B E).intervalAssertFails m = false := by
+  unfold OrdList.intervalAssertFails
+  simp only [OrdList.new, OrdList.posOf, OrdList.addr, List.length_nil]
+  by_cases hEB : E = B
+  · subst hEB
+    simp only [↓reduceIte]
+    by_cases h1 : E > m
+    · simp [h1]
+    · have h2 : E < m := by omega
+      simp [h1, h2]
+  · simp only [hEB, ↓reduceIte]
+    by_cases h1 : E > m
+    · simp [h1]
+    · have h2 : B < m := by omega
+      simp [h1, h2]
+
 /-- **ordered list**, full statement: the insert into a fresh list succeeds (in every configuration) and yields
 exactly `n` nodes. `mem < E ∨ B < mem`: the block is not squeezed between the two proxy words of the list object
 (always true: the proxies are adjacent members of the list object). -/
@@ -75,7 +93,9 @@ theorem C18_min_block_suffices_ordered_insert (cfg : Cfg) (ns n : BitVec 64) (B 
   have hf := findPos_new ns.toNat B E cfg.dblDealloc mem hm
   have hd' : (orderedListMinBlockSize ns n).toNat / (OrdList.new ns.toNat B E).ns = n.toNat := hd
   have hn0 : n.toNat ≠ 0 := by omega
-  simp only [OrdList.insert, OrdList.insertImpl, hf, hd', hn0, ↓reduceIte, Nat.zero_add, ne_eq, not_true_eq_false]
+  have hA := intervalAssertFails_new ns.toNat B E mem hm
+  simp only [OrdList.insert, OrdList.insertImpl, hf, hd', hn0, hA, Bool.and_false, Bool.false_eq_true, ↓reduceIte, Nat.zero_add,
+    ne_eq, not_true_eq_false]
   refine ⟨_, rfl, ?_, ?_, ?_⟩
   · simp [OrdList.new]
   · simp [OrdList.spliceAt, OrdList.new, blockNodes_length]
